@@ -26,7 +26,9 @@ import o1_common as oc
 PROP = "C06"
 RULE = ("random objective/box/N=1..5/density/r/eps/itersLimit; the run is stepped by DoGlobalIteration(k) (k mostly 1) or by "
         "Solve with an OnEndIteration listener, and the complete record is tested after every iteration (refineSolution=False; "
-        "the record after a local refinement is not claimed by the property's 'after any number of iterations'). Distinct by "
+        "the record after a local refinement is not claimed by the property's 'after any number of iterations'); 12% of the runs "
+        "start with a failing first evaluation (contained by Solve) and are then started again; in 18% another solver is built and "
+        "run before the record is audited once more. Distinct by "
         "parameter set + stepping pattern; non-trivial if >= 4 trials were recorded (so insertions happened on both sides and "
         "between evaluated neighbours).")
 
@@ -54,13 +56,28 @@ def check_case(case):
                 check_now("OnEndIteration")
 
         def OnMethodStop(self, searchData, solution, status):
-            check_now("OnMethodStop")
+            if holder[0].problem.log:          # an empty record (the first evaluation failed) has nothing to traverse
+                check_now("OnMethodStop")
 
-    run = oc.Run(case, listeners=[Rec()] if case.get("listener", True) else [])
+    ff = bool(case.get("first_fails"))
+    run = oc.Run(case, listeners=[Rec()] if case.get("listener", True) else [],
+                 fail_at=1 if ff else None, exc=ValueError if ff else None)
     holder[0] = run
     holder[1] = oc.RecordChecker(run)
     err = None
+    other = None
     try:
+        if ff:
+            # the very first evaluation raises (a transient failure): Solve contains it; the search is then started again.
+            # Nothing was evaluated, so nothing may have been recorded, and the retried run must be a faithful record.
+            import contextlib
+            with contextlib.redirect_stdout(run.out):
+                run.solver.Solve()
+            run.out.truncate(0); run.out.seek(0)
+            n0 = run.solver.searchData.GetCount()
+            if n0 != 0 or run.solver.GetResults().numberOfGlobalTrials != 0:
+                vs.append(oc.violation(PROP, case, "nothing-recorded-after-failed-first-trial",
+                                       {"GetCount": n0, "reported_trials": run.solver.GetResults().numberOfGlobalTrials}))
         for b in case.get("batches", []):
             ok = run.iterate(b)
             if run.problem.log:
@@ -70,6 +87,12 @@ def check_case(case):
         if case.get("solve", True):
             run.solve()
             check_now("after Solve")
+        if case.get("other_solver") and run.problem.log and not run.collapsed:
+            # another solver of the same process is built and run to the end: this solver's record must not change
+            oc2 = dict(case["other_solver"])
+            other = oc.Run(oc2)
+            other.solve()
+            check_now("after ANOTHER solver was built and run")
     except BaseException as e:                 # noqa
         err = repr(e)
     if run.trouble(err):
@@ -96,6 +119,11 @@ def gen(r):
         case["batches"] = bs
         case["solve"] = r.random() < 0.7
         case["listener"] = r.random() < 0.5
+    v = r.random()
+    if v < 0.12:
+        case["first_fails"] = True
+    elif v < 0.3:
+        case["other_solver"] = oc.gen_case(r, lim=r.choice([3, 8, 30]))
     return case
 
 
